@@ -5,6 +5,7 @@ import (
 	"go/ast"
 	"go/token"
 	"go/types"
+	"golang.org/x/tools/go/packages"
 	"strings"
 )
 
@@ -323,6 +324,8 @@ func checkC15(c *Check) {
 		r3.Und("parser.(*parser).InstantiateGenericFunction", token.NoPos, "function not found")
 	}
 
+	checkGenericLookupOrder(c)
+
 	// ---------------- R15.6 ----------------
 	// the context an instantiation is parsed in always contains what was in scope where the generic function was declared:
 	// its aliases are inserted, its operators merged and its symbols wrapped on every path, independently of the parser's state
@@ -475,5 +478,100 @@ func checkC15(c *Check) {
 		r5.Decide(okReg && nFresh > 0, "ddptypes.GetInstantiatedStructType|fresh instantiation registered", fi.Decl.Pos(), "every path that returns a new instantiation has appended it to the memo", "a new instantiation is returned without being appended to the memo: the next request with equal type arguments creates a second, distinct type")
 	} else {
 		r5.Und("ddptypes.GetInstantiatedStructType", token.NoPos, "function not found")
+	}
+}
+
+// R15.7: names inside the body of a generic function resolve as at its declaration. The symbol table the body is re-parsed
+// with (genericSymbolTable) answers a type or declaration name from the type parameters first, then from the declaration
+// site (contextTable), and only then from the call site (parserTable) - whose variables stay invisible. Decided by
+// evaluating LookupType and LookupDecl (engine E2) against two scripted tables that both know the name.
+func checkGenericLookupOrder(c *Check) {
+	L := c.L
+	r := c.Rule("R15.7", "names in a generic body resolve at the declaration site before the call site; call-site variables are invisible", 5)
+	lt := L.Fn("src/parser.(genericSymbolTable).LookupType")
+	ld := L.Fn("src/parser.(genericSymbolTable).LookupDecl")
+	if lt == nil || ld == nil {
+		r.Und("parser.(genericSymbolTable)", token.NoPos, "LookupType/LookupDecl not found")
+		return
+	}
+	mkTable := func(tag string, hasType, hasDecl, declIsVar bool) *Obj {
+		t := newObj("table:" + tag)
+		t.set("tag", StrV(tag))
+		t.set("hasType", boolV(hasType))
+		t.set("hasDecl", boolV(hasDecl))
+		t.set("declIsVar", boolV(declIsVar))
+		return t
+	}
+	newIn := func() *Interp {
+		in := NewInterp(L)
+		in.Models["ast.(SymbolTable).LookupType"] = func(in *Interp, pkg *packages.Package, call *ast.CallExpr, recv Val, args []Val) (Val, bool) {
+			o, ok := recv.(*Obj)
+			if !ok {
+				return nil, false
+			}
+			if t, _ := truth(o.get("hasType")); t {
+				ty := newObj("type-of:" + string(o.get("tag").(StrV)))
+				return TupleV{ty, boolV(true)}, true
+			}
+			return TupleV{NilV{}, boolV(false)}, true
+		}
+		in.Models["ast.(SymbolTable).LookupDecl"] = func(in *Interp, pkg *packages.Package, call *ast.CallExpr, recv Val, args []Val) (Val, bool) {
+			o, ok := recv.(*Obj)
+			if !ok {
+				return nil, false
+			}
+			if t, _ := truth(o.get("hasDecl")); t {
+				d := newObj("decl-of:" + string(o.get("tag").(StrV)))
+				return TupleV{d, boolV(true), o.get("declIsVar")}, true
+			}
+			return TupleV{NilV{}, boolV(false), boolV(false)}, true
+		}
+		return in
+	}
+	kindOf := func(v Val) string {
+		if o, ok := v.(*Obj); ok {
+			return o.Kind
+		}
+		if _, ok := v.(NilV); ok {
+			return "nil"
+		}
+		return fmt.Sprint(v)
+	}
+	type scen struct {
+		name                     string
+		ctxHas, parHas, parIsVar bool
+		wantType, wantDecl       string
+	}
+	scens := []scen{
+		{"both sites know the name", true, true, false, "type-of:declaration site", "decl-of:declaration site"},
+		{"only the declaration site knows it", true, false, false, "type-of:declaration site", "decl-of:declaration site"},
+		{"only the call site knows it (a function or type)", false, true, false, "type-of:call site", "decl-of:call site"},
+		{"only the call site knows it (a variable)", false, true, true, "type-of:call site", "nil"},
+	}
+	for _, sc := range scens {
+		for _, which := range []string{"LookupType", "LookupDecl"} {
+			in := newIn()
+			recv := newObj("parser.genericSymbolTable")
+			recv.set("contextTable", mkTable("declaration site", sc.ctxHas, sc.ctxHas, false))
+			recv.set("parserTable", mkTable("call site", sc.parHas, sc.parHas, sc.parIsVar))
+			recv.set("genericTypes", MapV{Exact: true})
+			fi, want := lt, sc.wantType
+			if which == "LookupDecl" {
+				fi, want = ld, sc.wantDecl
+			}
+			var res Val
+			runs, _ := in.RunAll(4, func() { res = in.CallFunc(fi, recv, []Val{StrV("Kennzahl")}) })
+			key := "parser.(genericSymbolTable)." + which + "|" + sc.name
+			tv, ok := res.(TupleV)
+			if runs != 1 || !ok || len(tv) < 2 {
+				r.Und(key, fi.Decl.Pos(), fmt.Sprintf("not evaluated (%v)", res))
+				continue
+			}
+			got := kindOf(tv[0])
+			if found, known := truth(tv[1]); known && !found {
+				got = "nil"
+			}
+			r.Decide(got == want, key, fi.Decl.Pos(), "answers "+want, "answers "+got+" where "+want+" is required: a name in a generic body is bound at the call site instead of the declaration site, so the instantiation differs from the specialisation written out at the declaration (and from the same call made inside the declaring module)")
+		}
 	}
 }
